@@ -285,7 +285,20 @@ static void c03_check(cbor_item_t* it, const rnode* shadow) {
 
 /* ------------------------------------------------------------------- C07 */
 static uint64_t g_huge_budget;
+static void c07_check_inner(cbor_item_t* it);
+/* one tree in four is sized and serialized while its root is a temporary handed on with cbor_move (reference count 0):
+ * the serializers read it like any other item and leave its release to whoever adopts it */
 static void c07_check(cbor_item_t* it) {
+  bool lent = cbor_refcount(it) == 1 && ((uintptr_t)cbor_serialized_size(it) * 2654435761u >> 7 & 3) == 1;
+  if (lent) (void)cbor_move(it);
+  c07_check_inner(it);
+  if (lent) {
+    if (cbor_refcount(it) != 0) vh_violation("argument-changed", "the root lent with reference count 0 has count %zu after sizing and serializing", cbor_refcount(it));
+    cbor_incref(it);
+    VH_COUNT("trees_serialized_with_reference_count_0", 1);
+  }
+}
+static void c07_check_inner(cbor_item_t* it) {
   size_t size = cbor_serialized_size(it);
   if (size == 0) { VH_COUNT("skipped.size0", 1); return; }
   size_t cap_quick = O.budget2 ? (size_t)O.budget2 : (O.thorough ? 5000 : 300);
@@ -517,7 +530,15 @@ static void c11_check(cbor_item_t** srcp) {
   size_t nser = ser_of(src, &ser_src);
   /* copying is a matter of bits: the thread's errno, rounding mode and FTZ/DAZ flags must not influence it */
   vh_ambient_scramble(vh_hash(ser_src, nser) >> 7);
+  /* one source in four is a temporary handed on with cbor_move (reference count 0) while it is copied */
+  bool lent = cbor_refcount(src) == 1 && ((vh_hash(ser_src, nser) >> 3) & 3) == 1;
+  if (lent) (void)cbor_move(src);
   cbor_item_t* cp = cbor_copy(src);
+  if (lent) {
+    if (cbor_refcount(src) != 0) vh_violation("source-changed", "a source lent with reference count 0 has count %zu after cbor_copy", cbor_refcount(src));
+    cbor_incref(src);
+    VH_COUNT("sources_copied_with_reference_count_0", 1);
+  }
   vh_ambient_restore();
   if (!cp) {
     if (TA.refused == 0) vh_violation("copy-null", "cbor_copy returned NULL although no allocation was refused");
